@@ -340,7 +340,10 @@ func runClosedLoop(run *ev.Run, pc pacerCase) c01Stats {
 			if pc.Kind == "linear" {
 				want = (float64(pc.Freq)/float64(pc.Per) + pc.Slope/1e18*tf) * 1e9 // declared (unclipped) rate
 			}
-			if math.Abs(got-want) > 1e-9*math.Max(math.Abs(want), 1e-300)+1e-12 && !(math.IsInf(got, 0) && math.IsInf(want, 0)) {
+			// the tolerance is relative to the peak rate: near the trough of a sine
+			// with amplitude close to the mean the rate is the small difference of two
+			// large terms, and both sides evaluate sin() of a large argument
+			if math.Abs(got-want) > 1e-9*math.Max(math.Abs(peak*1e9), math.Abs(want))+1e-12 && !(math.IsInf(got, 0) && math.IsInf(want, 0)) {
 				viol("R-rate", step, t, k, w, stop, got, want, 1e-9, nil)
 				return st
 			}
